@@ -8,6 +8,7 @@ import PqlModel.Props.C06ParamsAtomic
 import PqlModel.Props.C06ParamsExamples
 import PqlModel.Props.C06Placeholders
 import PqlModel.Props.C02ProgramNames
+import PqlModel.Props.C06CompileIR
 #print axioms Pql.C06.C06_shadow
 #print axioms Pql.C06.C06_other_binding_irrelevant
 #print axioms Pql.C06.C06_after_ignored
@@ -64,3 +65,13 @@ import PqlModel.Props.C02ProgramNames
 #print axioms Pql.E2EMore.C06_placeholder_params_end_to_end
 #print axioms Pql.E2EMore.C06_placeholder_params_end_to_end_names
 #print axioms Pql.E2EMore.C06_placeholder_params_run
+#print axioms Pql.ExprIR.compilePre_ir
+#print axioms Pql.ExprIR.C06_paramCopy_ir
+#print axioms Pql.ExprIR.C06_paramCopy_nil
+#print axioms Pql.ExprIR.C06_paramCopy_order
+#print axioms Pql.ExprIR.C06_compileStmts_ir
+#print axioms Pql.ExprIR.C06_compileStmts_ir_needs_tab
+#print axioms Pql.ExprIR.C06_compileStmts_ir_nonvacuous
+#print axioms Pql.ExprIR.C06_compilePre_ir
+#print axioms Pql.ExprIR.C06_compile_ir
+#print axioms Pql.ExprIR.C06_compile_scope_order
